@@ -14,7 +14,7 @@ def replay(spec):
     warnings.simplefilter("ignore")
     from bioscrape.types import Model
     ptype, sp, stochastic = spec["ptype"], spec["spec"], spec["stochastic"]
-    values = {"k": 1.5, "K": 2.5, "n": 2.0}
+    values = {"k": 0.000123456789012, "K": 2.5000001234567, "n": 2.0}
     params = []
     if ptype == "massaction":
         pd = {"k": "kf"} if sp["named"] else {"k": values["k"]}
@@ -52,6 +52,14 @@ def replay(spec):
         sm = doc.getModel()
     else:
         doc, sm = M.generate_sbml_model(stochastic_model=stochastic)
+    if spec.get("aspect") == "parameter-values":
+        mp = M.get_parameter_dictionary()
+        bad = []
+        for p_ in sm.getListOfParameters():
+            nm_ = p_.getId() if p_.getId() in mp else "_" + p_.getId()
+            if nm_ in mp and float(p_.getValue()) != float(mp[nm_]):
+                bad.append("parameter %s is exported as %r, the model has %r" % (p_.getId(), p_.getValue(), float(mp[nm_])))
+        return {"reproduced": bool(bad), "observed": bad[:3], "expected": "the model's parameter values"}
     law = sm.getReaction(0).getKineticLaw().getMath()
     text = libsbml.formulaToL3String(law)
     env = {}
